@@ -3,6 +3,7 @@ package main
 import (
 	"encoding/json"
 	"fmt"
+	"os"
 	"strings"
 
 	"github.com/couchbase/gocbcore/v10"
@@ -21,7 +22,7 @@ func init() {
 	register(&Property{
 		ID:        "C01",
 		Technique: "explicit enumeration of all operation histories (deliver, ack oldest/newest, commit with optional failure, periodic tick, crash+restart) up to a depth over the real observer/stream/checkpoint/metadata code, reference model evaluated after every step and after every crash point",
-		Rule:      "histories over {deliver0, deliver1, ackold, acknew, commit(ok|fail), tick, crash} for six snapshot layouts and two backends; every history ends with (or contains) a crash followed by a real restart on the same simulated bucket; non-trivial = distinct (history, durable tuples, tracked positions)",
+		Rule:      "histories over {deliver0, deliver1, ackold, acknew, commit(ok|fail), tick, crash, crash-inside-a-save with every subset of the per-vBucket writes applied} for six snapshot layouts and two backends; every history ends with (or contains) a crash followed by a real restart on the same simulated bucket; non-trivial = distinct (history, durable tuples, tracked positions)",
 		Assume:    pipeAssume,
 		Instances: func(tier string) []Instance {
 			d := 6
@@ -29,12 +30,13 @@ func init() {
 				d = 8
 			}
 			var out []Instance
-			ops := []string{"deliver0", "deliver1", "ackold", "acknew", "commit", "crash"}
+			ops := []string{"deliver0", "deliver1", "ackold", "acknew", "commit", "crash", "crashsave"}
 			for _, l := range layouts {
 				out = append(out, Instance{Scenario: "pipe", Params: mustJSON(PipeParams{Mode: "script", Layout: l, Depth: d, Ops: ops, Faults: true, CrashEnd: true}), Bound: 0, Shards: 4})
 			}
 			out = append(out, Instance{Scenario: "pipe", Params: mustJSON(PipeParams{Mode: "script", Layout: "multi", Depth: d, Ops: append(ops[:5:5], "tick"), Auto: true, CrashEnd: true}), Bound: 0, Shards: 4})
 			out = append(out, Instance{Scenario: "pipe", Params: mustJSON(PipeParams{Mode: "script", Layout: "backtoback", Depth: d - 1, Ops: ops, Backend: "file", CrashEnd: true}), Bound: 0, Shards: 4})
+			out = append(out, Instance{Scenario: "pipe_tornfile", Params: mustJSON(struct{}{}), Bound: 0, Note: "crash inside os.WriteFile of the file backend: every prefix class of the JSON file"})
 			return out
 		},
 	})
@@ -130,6 +132,60 @@ func init() {
 				return nil
 			}
 			return []string{"status " + r.Status.String()}
+		}}
+	}
+}
+
+// pipe_tornfile: the file backend's single JSON file is cut at every byte-prefix class by a crash inside
+// os.WriteFile (empty, any proper prefix, complete); the restart must either fail stop or resume correctly.
+func init() {
+	scenarios["pipe_tornfile"] = func(raw json.RawMessage) *vrt.Scenario {
+		return &vrt.Scenario{Name: "pipe_tornfile", FreeChoices: true, Main: func() {
+			pp := newPipe(PipeParams{Mode: "script", Layout: "multi", Backend: "file"})
+			defer pp.cleanup()
+			pp.deliverScript(0)
+			pp.deliverScript(0)
+			pp.deliverScript(1)
+			for _, d := range pp.unacked(-1) {
+				pp.ack(d)
+			}
+			pp.e.Stream.Save()
+			pp.deliverScript(0)
+			for _, d := range pp.unacked(-1) {
+				pp.ack(d)
+			}
+			// the second save is torn
+			good, _ := os.ReadFile(pp.file)
+			pp.e.Stream.Save()
+			full, _ := os.ReadFile(pp.file)
+			cuts := []int{0, 1, len(full) / 4, len(full) / 2, len(full) - 2, len(full)}
+			cut := cuts[vrt.Choose(len(cuts), true, "bytes-written-before-the-crash")]
+			_ = os.WriteFile(pp.file, full[:cut], 0o644)
+			_ = good
+			vrt.SetOutcome(fmt.Sprintf("cut=%d/%d", cut, len(full)))
+			if cut < len(full) {
+				vrt.Logf("TORN")
+			}
+			pp.hist = append(pp.hist, fmt.Sprintf("torn-file(%d of %d bytes)", cut, len(full)))
+			pp.crashRestart()
+			pp.checkAll()
+		}, Classify: func(r *vrt.Result) []string {
+			torn := false
+			for _, l := range r.Log {
+				if l == "TORN" {
+					torn = true
+				}
+			}
+			if r.Status == vrt.StatusCrash {
+				if torn {
+					return nil // fail-stop on a torn checkpoint file
+				}
+				return []string{"restart on a complete checkpoint file crashed: " + r.Crash.Value}
+			}
+			if r.Status != vrt.StatusOK {
+				return []string{"status " + r.Status.String()}
+			}
+			return nil // resumed: the restart clauses were checked by crashRestart (Failf)
 		}}
 	}
 }
